@@ -35,7 +35,8 @@ func srefSchemaJSON(allRoot bool) string {
    "s3":{"type":{"key":` + ref("N3", "strong") + `,"min":0,"max":1}},
    "wset":{"type":{"key":` + ref("N1", "weak") + `,"min":0,"max":"unlimited"}},
    "wopt":{"type":{"key":` + ref("N1", "weak") + `,"min":0,"max":1}},
-   "wmap":{"type":{"key":{"type":"string"},"value":` + ref("N1", "weak") + `,"min":0,"max":"unlimited"}}
+   "wmap":{"type":{"key":{"type":"string"},"value":` + ref("N1", "weak") + `,"min":0,"max":"unlimited"}},
+   "w3":{"type":{"key":` + ref("N3", "weak") + `,"min":0,"max":"unlimited"}}
   }` + root + `},
  "R2":{"columns":{"one":{"type":{"key":` + ref("N1", "strong") + `}}}` + root + `},
  "RW":{"columns":{"w1":{"type":{"key":` + ref("N1", "weak") + `,"min":1,"max":"unlimited"}}}` + root + `},
@@ -153,6 +154,12 @@ func srefAlphabet(level int) []dbx.Txn {
 			opInsert("N3", uN3[1], rm.Row{"name": str("c2")}),
 			opUpdate("R", r, rm.Row{"s3": uset(uN3[0])}))
 		add(fmt.Sprintf("R %s.s3:=[]", short(r)), opUpdate("R", r, rm.Row{"s3": uset()}))
+		// weak references to both links of a chain that is collected one link per round, held by the row the transaction modifies
+		add(fmt.Sprintf("ins N3 c1->c2 + R %s.s3:=c1 w3:=[c1,c2]", short(r)),
+			opInsert("N3", uN3[0], rm.Row{"name": str("c1"), "peer": uset(uN3[1])}),
+			opInsert("N3", uN3[1], rm.Row{"name": str("c2")}),
+			opUpdate("R", r, rm.Row{"s3": uset(uN3[0]), "w3": uset(uN3[0], uN3[1])}))
+		add(fmt.Sprintf("R %s.w3:=[c1,c2]", short(r)), opUpdate("R", r, rm.Row{"w3": uset(uN3[0], uN3[1])}))
 		add(fmt.Sprintf("R %s.s3:=c2", short(r)), opUpdate("R", r, rm.Row{"s3": uset(uN3[1])}))
 	}
 	for _, n := range n1 {
@@ -209,6 +216,19 @@ func srefAlphabet(level int) []dbx.Txn {
 		opInsert("R", uR[0], rm.Row{"name": str("full"), "sset": uset(n1[0], n1[1]), "sopt": uset(n1[0]),
 			"smap": rm.MapOf(rm.S("k1"), rm.U(n1[1])), "kmap": rm.MapOf(rm.U(n1[0]), rm.S("x")),
 			"wset": uset(n1[0], n1[1]), "wopt": uset(n1[1]), "wmap": rm.MapOf(rm.S("k1"), rm.U(n1[0]), rm.S("k2"), rm.U(n1[1]))}))
+	// several steps on one column of one row inside one transaction (the row is the one "ins R r1 full" creates), with
+	// another column changed too: the notification carries the merged difference
+	one := func(i int64) rm.Value { return rm.SetOf(rm.I(i)) }
+	add("R r1.smap[k1] changed then removed + cnt:=8",
+		opUpdate("R", uR[0], rm.Row{"smap": rm.MapOf(rm.S("k1"), rm.U(n1[0]))}), opMutate("R", uR[0], "smap", "delete", rm.SetOf(rm.S("k1"))), opUpdate("R", uR[0], rm.Row{"cnt": one(8)}))
+	add("R r1.kmap[a1] changed then removed + cnt:=8",
+		opUpdate("R", uR[0], rm.Row{"kmap": rm.MapOf(rm.U(n1[0]), rm.S("y"))}), opMutate("R", uR[0], "kmap", "delete", uset(n1[0])), opUpdate("R", uR[0], rm.Row{"cnt": one(8)}))
+	add("R r1.wmap[k1] removed then re-added as a2 + cnt:=8",
+		opMutate("R", uR[0], "wmap", "delete", rm.SetOf(rm.S("k1"))), opMutate("R", uR[0], "wmap", "insert", rm.MapOf(rm.S("k1"), rm.U(n1[1]))), opUpdate("R", uR[0], rm.Row{"cnt": one(8)}))
+	add("R r1.wmap[k1] changed and changed back + cnt:=8",
+		opUpdate("R", uR[0], rm.Row{"wmap": rm.MapOf(rm.S("k1"), rm.U(n1[1]), rm.S("k2"), rm.U(n1[1]))}), opUpdate("R", uR[0], rm.Row{"wmap": rm.MapOf(rm.S("k1"), rm.U(n1[0]), rm.S("k2"), rm.U(n1[1]))}), opUpdate("R", uR[0], rm.Row{"cnt": one(8)}))
+	add("R r1.wset a1 removed then added back + cnt:=8",
+		opMutate("R", uR[0], "wset", "delete", uset(n1[0])), opMutate("R", uR[0], "wset", "insert", uset(n1[0])), opUpdate("R", uR[0], rm.Row{"cnt": one(8)}))
 	return a
 }
 
